@@ -85,6 +85,11 @@ func (k *Kernel) procMain(p *Proc) {
 			res.StdinErrorReturned = stdinReader.errReturned
 		}
 		res.Stdout = k.Norm(stdout.buf.String())
+		if lb := spec.Flags["LINE_BREAK"]; lb == "CR" || lb == "CRLF" {
+			// the flag also decides the line break of what is printed: the oracles read
+			// the output line by line
+			res.Stdout = strings.ReplaceAll(strings.ReplaceAll(res.Stdout, "\r\n", "\n"), "\r", "\n")
+		}
 		res.Stderr = k.Norm(stderr.String())
 		res.Stamps = stdout.st
 		res.StdoutFaults = stdout.failed
